@@ -264,7 +264,10 @@ func corpusPrograms(v2 bool) []*Program {
 		// F2: a.User{F b.Foo[int]} is walked before b's declaration of Foo
 		ps = append(ps, mkProg(true, [3]string{"example.com/m/b", "", "package b\n\ntype Foo[T any] struct {\n\tV T\n\tP *T\n}\n"},
 			[3]string{"example.com/m/a", "example.com/m/b", "package a\n\nimport b \"example.com/m/b\"\n\ntype User struct {\n\tF b.Foo[int]\n\tG b.Foo[string]\n}\n"}),
-			mkProg(true, [3]string{"example.com/m/a", "", "package a\n\ntype T struct{ X int }\n\ntype U = T\n\ntype W struct{ F U; G any }\n"}))
+			mkProg(true, [3]string{"example.com/m/a", "", "package a\n\ntype T struct{ X int }\n\ntype U = T\n\ntype W struct{ F U; G any }\n"}),
+			// a generic struct with a method, instantiated by a type that is walked before the declaration
+			mkProg(true, [3]string{"example.com/m/b", "", "package b\n\ntype Foo[T any] struct {\n\tV T\n}\n\nfunc (f Foo[T]) Get(d T) T { return f.V }\n"},
+				[3]string{"example.com/m/a", "example.com/m/b", "package a\n\nimport b \"example.com/m/b\"\n\ntype User struct {\n\tF b.Foo[int]\n}\n"}))
 	}
 	return ps
 }
